@@ -79,8 +79,16 @@ func (r *Result) sample(v any) {
 	}
 }
 
+// violate records a violation: at most 8 per class (so that a frequent class, e.g. a known finding, cannot
+// crowd out a different one) and 200 in all.
 func (r *Result) violate(v Violation) {
-	if len(r.Violations) < 50 {
+	n := 0
+	for _, x := range r.Violations {
+		if x.Class == v.Class {
+			n++
+		}
+	}
+	if n < 8 && len(r.Violations) < 200 {
 		r.Violations = append(r.Violations, v)
 	}
 }
